@@ -324,6 +324,14 @@ def parse_decl(line):
         attrs.append(bits[0])
         types.append(bits[1] if len(bits) > 1 else "i")
         full.append(":".join(bits[1:]))
+    # the printer never marks the first attribute as auxiliary: count trailing '@...' attributes too
+    trailing = 0
+    for a in reversed(attrs):
+        if a.startswith("@"):
+            trailing += 1
+        else:
+            break
+    aux = max(aux, trailing)
     d = RelDecl(name, attrs, types, aux, rep)
     d.full_types = full
     return d
